@@ -1,3 +1,4 @@
+//! `strraw <hex literal text>` — the stored form of a string literal (quote kind and raw value).
 //! C13: `mapops <conv> <key pool> <value pool> <literal> <ops> <hex scss>` — compiles the
 //! SassScript program (last field; the term fields are for the Lean model) and returns
 //! `ok:<hex css>` | `err:<hex message>`.
@@ -8,6 +9,25 @@ pub fn run(op: &str, f: &[&str]) -> Option<String> {
         "mapops" => {
             let src = unhex_str(f.get(5)?);
             Some(compile_str(&src, format("e", "10")).line())
+        }
+        "strraw" => {
+            // T1: how the literal parser stores a string literal: `<quotes n|d|s>:<hex raw value>`
+            let text = unhex(f.first()?);
+            let v = rsass::parse_value_data(&text).ok()?;
+            let v = v
+                .evaluate(rsass::ScopeRef::new_global(Default::default()))
+                .ok()?;
+            match v {
+                rsass::css::Value::Literal(s) => {
+                    let q = match s.quotes() {
+                        rsass::value::Quotes::None => "n",
+                        rsass::value::Quotes::Double => "d",
+                        rsass::value::Quotes::Single => "s",
+                    };
+                    Some(format!("{q}:{}", hex(s.value().as_bytes())))
+                }
+                _ => Some("notstring".into()),
+            }
         }
         _ => None,
     }
